@@ -645,6 +645,15 @@ func (e *Engine) evalSpecCall(x *SExpr, env *SpecEnv) Value {
 		like := term(e.evalSpec(args[3], env))
 		k := term(e.evalSpec(args[2], env))
 		return VTerm{T: mkApp(fmt.Sprintf("execarg%d_%s", atoi(args[1].Val), sortTag(like.Sort)), like.Sort, vt.T, k), Typ: e.evalSpec(args[3], env).(VTerm).Typ}
+	case "bcount":
+		// multiplicity of value v in the multiset held by search tree b (ghost abstract state)
+		v := e.evalSpec(args[0], env)
+		vt, ok := v.(VTerm)
+		if !ok || vt.T.Sort != SRef {
+			unsup("spec: bcount of %T", v)
+		}
+		arr := env.st.getMem("bst:"+vt.T.String(), mkApp("bcount0", arraySortK(SReal, SInt), vt.T))
+		return VTerm{T: mkSelect(arr, toReal(term(e.evalSpec(args[1], env)))), Typ: intT}
 	case "view":
 		// ghost abstract state of a repository object: map from asset name to the ordered snapshots it holds
 		v := e.evalSpec(args[0], env)
@@ -781,6 +790,8 @@ func (e *Engine) evalSpecCall(x *SExpr, env *SpecEnv) Value {
 		case "str":
 			rs = SStr
 			rt = types.Typ[types.String]
+		case "stream":
+			return VStream{ID: mkApp(name, SInt, ts...), Elem: types.Typ[types.Float64]}
 		}
 		return VTerm{T: mkApp(name, rs, ts...), Typ: rt}
 	}
